@@ -189,6 +189,64 @@ def make_frame(gen, rnd, w, combo, obs):
     return con.frame_unknown(rnd.choice([0x77, 0x01]), rnd.randbytes(rnd.randint(0, 9)))
 
 
+def one_field_frame(gen, rnd, w, obs):
+    """A status frame for ONE entity that differs from the console's current record of that
+    entity in exactly one field (a change confined to one attribute must still be noticed)."""
+    con = w.console
+    inst = w.inst
+    obs["single_field_changes"] = obs.get("single_field_changes", 0) + 1
+    if inst["zones"] and rnd.random() < 0.5:
+        z = rnd.choice(inst["zones"])
+        st = dict(z["status"])
+        f = rnd.choice([k for k in st if k not in ("group", "zone")])
+        v = st[f]
+        if isinstance(v, bool):
+            st[f] = not v
+        elif f == "power":
+            st[f] = rnd.choice([x for x in ("off", "on", "turbo") if x != v])
+        elif f == "control_method":
+            st[f] = "damper" if v == "temperature" else "temperature"
+        elif f == "damper":
+            st[f] = (v + 1 + rnd.randrange(50)) % 101
+        elif f == "set_point_raw":
+            st[f] = (v + 1 + rnd.randrange(20)) % 64
+        elif f == "sp_raw":
+            st[f] = (v + 1 + rnd.randrange(100)) % 251 if v != 0xFF else 120
+        elif f == "temp_raw11":
+            st[f] = ((v or 0) + 1 + rnd.randrange(300)) % 2001
+        z["status"] = st
+        if gen == 4:
+            return con.f_std(0x2B, R.b4_group_status_record(st))
+        return con.f_std(0xC0, R.c0(0x21, 8, [R.b5_zone_status_record(st)]))
+    a = rnd.choice(inst["acs"])
+    st = dict(a["status"])
+    f = rnd.choice([k for k in st if k not in ("ac", "error")])
+    v = st[f]
+    if isinstance(v, bool):
+        st[f] = not v
+    elif f == "power":
+        st[f] = "on" if v == "off" else "off"
+    elif f == "power_code":
+        st[f] = rnd.choice([x for x in (0, 1, 2, 3, 5) if x != v])
+    elif f == "mode_code":
+        st[f] = rnd.choice([x for x in (0, 1, 2, 3, 4, 8, 9) if x != v])
+    elif f == "fan_code":
+        dom = list(range(7)) + ([9, 10, 11, 12, 13, 14] if gen == 5 else [])
+        st[f] = rnd.choice([x for x in dom if x != v])
+    elif f == "set_point":
+        st[f] = (v + 1 + rnd.randrange(20)) % 64
+    elif f == "sp_raw":
+        st[f] = (v + 1 + rnd.randrange(100)) % 251
+    elif f == "temp_raw11":
+        st[f] = (v + 1 + rnd.randrange(300)) % 2001
+    if gen == 5 and st["spill"] and st["bypass"]:
+        st["bypass"] = False
+    a["status"] = st
+    if gen == 4:
+        return con.f_std(0x2D, R.b4_ac_status_record(st))
+    return con.f_std(0xC0, R.c0(0x23, 10, [R.b5_ac_status_record(st, 10)]))
+
+
 def run_case(case):
     gen = case["gen"]
     rnd = random.Random(case["seed"])
@@ -209,7 +267,10 @@ def run_case(case):
             return
         for i in range(case["n"]):
             combo = case["combos"][i % len(case["combos"])] if case["combos"] else None
-            raw = make_frame(gen, rnd, w, combo, obs)
+            if combo is None and rnd.random() < 0.25:
+                raw = one_field_frame(gen, rnd, w, obs)
+            else:
+                raw = make_frame(gen, rnd, w, combo, obs)
             if not await w.inject(raw):
                 break
             ch = w.feed()
